@@ -27,17 +27,21 @@ def fetchRefs (env : Env W HS) : List String → M W HS Unit
   | [] => pure ()
   | x :: xs => do fetchRef env x; fetchRefs env xs
 
-/-- a closure variable is read at entry (`x` alone, or `interact('x', None, None, x, False)`): the handler is
-    shown the value and may not override it; nothing is bound -/
+/-- a closure variable is read at entry (`try: x` or `try: interact('x', None, None, x, False)`, `except NameError:
+    pass`): the handler is shown the value and may not override it; nothing is bound; a cell that is still empty
+    is left alone (using the variable raises the name error where it is used, as in the original function) -/
 def freeHook (env : Env W HS) (x : String) : M W HS Unit :=
   match env.hk with
   | none => pure ()
-  | some cfg => do
-    let v ← lookup env x
-    if shouldInstr cfg x [] then do
-      let _ ← interactSem env x .noneV (annValOpt env none) v false
-      pure ()
-    else pure ()
+  | some cfg => fun st =>
+    match (lookup env x >>= fun v =>
+        if shouldInstr cfg x [] then interactSem env x .noneV (annValOpt env none) v false else pure v) st with
+    | (.ok _, st1) => (.ok (), st1)
+    | (.err e, st1) =>
+      if isFatal e then (.err e, st1) else
+      match env.host.glob nPyNameError with
+      | some c => if env.host.isinst e c then (.ok (), st1) else (.err e, st1)
+      | none => (.err (env.host.nameError nPyNameError), st1)
 
 def freeHooks (env : Env W HS) : List String → M W HS Unit
   | [] => pure ()
